@@ -1112,22 +1112,8 @@ RECOGNISERS = {"GNU_gama::IsFloat": {"float"}, "GNU_gama::IsInteger": {"float", 
 
 
 def main_of(ctx, relfile):
-    """`main` of one program.  Every program's main has the same function key, so the merged
-    fact base keeps only one of them; the others are exported on demand from their own TU."""
-    fx = ctx.facts
-    for f in fx.fns("main"):
-        if f.file == relfile:
-            return f
-    cache = getattr(ctx, "_attr_mains", None)
-    if cache is None:
-        cache = ctx._attr_mains = {}
-    if relfile not in cache:
-        sub = F.export(root=ctx.root, units=[relfile], driver=False)
-        cand = [f for f in sub.fns("main") if f.file == relfile]
-        if not cand:
-            raise AnalysisBroken("main() not found in %s" % relfile)
-        cache[relfile] = (cand[0], sub)
-    return cache[relfile][0]
+    """`main` of one program (the fact base keeps every main, keyed `main(...)@file` on collisions)."""
+    return ctx.facts.fn("main", file=relfile)
 
 
 def _writes_of(fn, vk):
@@ -1349,9 +1335,6 @@ def rule_main_funnel(ctx):
         fn = main_of(ctx, relfile)
         ctx.saw(fn)
         facts_list = [fx]
-        cached = getattr(ctx, "_attr_mains", {}).get(relfile)
-        if cached:
-            facts_list.append(cached[1])
         prog = os.path.splitext(os.path.basename(relfile))[0]
         cfg = fn.cfg
         tries = [n for n in fn.walk() if n.get("k") == "CXXTryStmt"]
@@ -1711,6 +1694,23 @@ class ScratchUnit:
         self.memo[mkey] = out
         return out
 
+    def ret_class(self, expr, tok, last_call, last_rets):
+        """Return-value classes of `return expr;` for one token: 0 (zero), 'nz', '?'.  Keeps the
+        error exits of a callee apart from its normal exits in `if (handler(atts)) return 1;`."""
+        e = _strip(expr)
+        if e is None:
+            return {"?"}
+        k = e.get("k")
+        if k in ("IntegerLiteral", "CXXBoolLiteralExpr"):
+            return {0 if _zero_const(e) else "nz"}
+        if last_call is not None and e.get("id") == last_call:
+            return set(last_rets.get(tok, {"?"}))
+        if k == "BinaryOperator" and e.get("op") == "=" and self.is_state(e["c"][0]):
+            v = self.fsm._const_of(e["c"][1])
+            if v is not None:
+                return {0 if v == 0 else "nz"}
+        return {"?"}
+
     def _read(self, fn, node, field, tokens):
         res = set()
         key = (fn.short, field)
@@ -1742,7 +1742,7 @@ class ScratchUnit:
         IN[cfg.entry] = {tok}
         work = [cfg.entry]
         exits = set()
-        pending = {}           # (block) -> {call id: (field)} strong write on the call's true edge
+        ret_pairs = set()      # (token, return class) recorded at return statements
         while work:
             self.steps += 1
             if self.steps > 2000000:
@@ -1751,6 +1751,7 @@ class ScratchUnit:
             toks = set(IN[b])
             blk = cfg.blocks[b]
             edge_writes = []      # (field, true successor index) for converter calls deciding this branch
+            last_call, last_rets = None, {}
             for e in blk.get("el", []):
                 if not isinstance(e, int) or not toks:
                     continue
@@ -1758,6 +1759,12 @@ class ScratchUnit:
                 if n is None:
                     continue
                 k = n.get("k")
+                if k == "ReturnStmt":
+                    rv = (n.get("c") or [n.get("value")])[0] if (n.get("c") or n.get("value")) else None
+                    for t in toks:
+                        for r in self.ret_class(rv, t, last_call, last_rets):
+                            ret_pairs.add((t, r))
+                    continue
                 f = self.unit_field(n)
                 if f is not None:
                     kind, anc = self.use_kind(fn, n)
@@ -1826,8 +1833,11 @@ class ScratchUnit:
                         cal = self.fx.functions.get(n.get("calleeKey") or "")
                         if cal is not None and cal.body is not None and self.touches(cal):
                             new = set()
+                            last_call, last_rets = n["id"], {}
                             for t in toks:
-                                new |= self.run(cal, t)
+                                for t2, r in self.run(cal, t):
+                                    new.add(t2)
+                                    last_rets.setdefault(t2, set()).add(r)
                             toks = new
                         continue
                 # any other call that receives a unit field by non-const reference: may write
@@ -1873,11 +1883,23 @@ class ScratchUnit:
             elif len(succs) == 2:
                 cond = _branch_value(fn, b)
                 ft = self.field_test(cond) if cond is not None else None
+                on_call = None         # the branch tests the value of the same-class call just made
+                if cond is not None and last_call is not None:
+                    inner, pos = _polarity(cond)
+                    if inner is not None and inner.get("id") == last_call:
+                        on_call = pos
                 for t in toks:
                     st = self.state_test(cond, t[0]) if cond is not None else None
                     for i, s in real:
                         if st is not None and i != st:
                             continue
+                        if on_call is not None:
+                            rcs = last_rets.get(t, {"?"})
+                            nonzero_edge = 0 if on_call else 1
+                            if i == nonzero_edge and not (rcs & {"nz", "?"}):
+                                continue
+                            if i != nonzero_edge and not (rcs & {0, "?"}):
+                                continue
                         t2 = t
                         if ft is not None and len(ft) == 3:
                             fld, nz_i, _tag = ft
@@ -1910,7 +1932,11 @@ class ScratchUnit:
                 if not ts <= IN[s]:
                     IN[s] |= ts
                     work.append(s)
-        return frozenset(exits)
+        out = {p for p in ret_pairs if p[0] in exits}
+        for t in exits:
+            if not any(p[0] == t for p in out):
+                out.add((t, "?"))
+        return frozenset(out)
 
     # ---- the automaton
     def age_scope(self, vals, tag):
@@ -1945,16 +1971,16 @@ class ScratchUnit:
             for vals in list(store[cfgk]):
                 succs = []
                 # character data between any two events
-                for sv, v2 in self.run(m.chr_fn, (s, vals)):
+                for (sv, v2), _r in self.run(m.chr_fn, (s, vals)):
                     if sv != m.error:
                         succs.append(((sv, st), v2))
                 for t in m.tags:
                     v0 = self.age_scope(vals, t)
-                    for sv, v2 in self.run(m.start_fn, (s, v0), {tag_decl: t}):
+                    for (sv, v2), _r in self.run(m.start_fn, (s, v0), {tag_decl: t}):
                         if sv != m.error:
                             succs.append(((sv, st + (t,)), v2))
                 if st:
-                    for sv, v2 in self.run(m.end_fn, (s, vals)):
+                    for (sv, v2), _r in self.run(m.end_fn, (s, vals)):
                         if sv != m.error:
                             succs.append(((sv, st[:-1]), self.age_scope(v2, st[-1])))
                 for c2, v2 in succs:
